@@ -530,7 +530,61 @@ def run(ck, prog, ctx):
         dflt = prog.body("<ontology::termarena::Arena as std::default::Default>::default")
         n_ph = len([t for _, t in dflt.calls() if t.callee.method == "push" and "HpoTermInternal" in (t.callee.def_args or "")]) if dflt is not None else None
         accs = sorted({t.callee.res.rsplit("::", 1)[-1] for fb in prog.family(cat) for _, t in fb.calls() if (t.callee.res or "").startswith("ontology::termarena::Arena::") and t.callee.res.rsplit("::", 1)[-1] in ("keys", "values", "values_mut", "iter")})
-        if not accs or n_ph is None:
+        # index form: `for i in a..b { let id = arena.id_at(i); .. }` where the accessor reads `terms[i]`: the positions walked must be exactly
+        # [number of placeholders, len(terms))  (LenEval: affine in len(self.terms), through Arena::len)
+        idx_form = False
+        if not accs and n_ph is not None:
+            from engines import LenEval
+            le_ = LenEval(prog)
+            for lp in for_loops(cat):
+                it_ = lp["iter"]
+                rng = None
+                cur = it_.place.local if it_.place is not None else None
+                seen_l = set()
+                while cur is not None and cur not in seen_l and rng is None:
+                    seen_l.add(cur)
+                    ds = pvn.defs(cat).get(cur, [])
+                    nxt = None
+                    for k_, p_, d_ in ds:
+                        if k_ == "assign" and d_.rv["k"] == "agg" and re.search(r"::Range(Inclusive)?$", d_.rv.get("adt", "")) and len(d_.rv["ops"]) == 2:
+                            rng = d_.rv
+                        elif k_ == "assign" and d_.rv["k"] in ("use", "ref"):
+                            src_ = d_.rv["op"].place if d_.rv["k"] == "use" else d_.rv["place"]
+                            nxt = src_.local if src_ is not None else None
+                        elif k_ == "call" and d_.callee.method in ("into_iter", "iter") and d_.args and d_.args[0].place is not None:
+                            nxt = d_.args[0].place.local
+                    cur = nxt
+                if rng is None:
+                    continue
+                # the loop variable indexes the arena's `terms` through an Arena accessor called in the loop
+                via = [t_ for bi_, t_ in cat.calls() if bi_ in lp["blocks"] and (t_.callee.res or "").startswith("ontology::termarena::Arena::") and t_.callee.res in prog.bodies and len(t_.args) == 2
+                       and any(t2.callee.trait == "std::ops::Index" and "HpoTermInternal" in (t2.callee.def_args or "") and params_of(pvn.of_operand(prog.bodies[t_.callee.res], t2.args[1]), t_.callee.res) == {2} for _, t2 in prog.bodies[t_.callee.res].calls())]
+                if not via:
+                    continue
+                idx_form = True
+                # the arena is a field of the builder: evaluate the bounds in the Arena's own terms by inlining `self.hpo_terms.len()`
+                def bound(op_):
+                    v = le_.usize(cat, op_)
+                    if v is None and op_.place is not None:
+                        for k_, p_, d_ in pvn.defs(cat).get(op_.place.local, []):
+                            if k_ == "call" and (d_.callee.res or "") == "ontology::termarena::Arena::len":
+                                g_ = prog.bodies[d_.callee.res]
+                                r_ = le_._ret(g_)
+                                if r_ is not None:
+                                    return le_._rv_usize(g_, r_[1].rv, 0) if r_[0] == "assign" else le_._call_usize(g_, r_[1], 0)
+                    return v
+                lo, hi = bound(rng["ops"][0]), bound(rng["ops"][1])
+                if hi is not None and rng["adt"].endswith("Inclusive"):
+                    hi = LenEval._comb(hi, {(): 1}, 1)
+                want_lo, want_hi = ({(): n_ph} if n_ph else {}), {("len", ("terms",)): 1}
+                if lo is None or hi is None:
+                    ck.undecided("PHASE", "connect/visits-all/index-range", "connect_all_terms walks the arena by position (%s); the bounds of the range are not affine in the arena's length" % via[0].callee.res.rsplit("::", 1)[-1], where=cat.where(lp["line"]))
+                else:
+                    from engines import fmt_len
+                    okr = lo == want_lo and hi == want_hi
+                    ck.ob("PHASE", "connect/visits-all/index-range", okr, "connect_all_terms walks the positions [%s, %s) of the arena's `terms` through Arena::%s (the real terms are [%d, len(terms)))%s" % (fmt_len(lo), fmt_len(hi).replace("self.", ""), via[0].callee.res.rsplit("::", 1)[-1], n_ph,
+                          "" if okr else ": " + ("the placeholder is visited and " if lo != want_lo and (lo.get((), 0) if lo else 0) < n_ph else "") + ("the last term(s) never get an ancestor cache" if hi != want_hi else "the first real term(s) are left out")), where=cat.where(lp["line"]))
+        if (not accs and not idx_form) or n_ph is None:
             ck.undecided("PHASE", "connect/visits-all", "the accessor that enumerates the terms for the cache pass is not recognised", where=cat.where())
         for a in accs:
             k = arena_placeholder_skips(prog, a)
